@@ -229,6 +229,35 @@ def outgoing_entities(r):
         ("chatstate", lambda: OutgoingChatstateProtocolEntity(r.choice(["composing", "paused"]), jid)),
         ("get-keys", lambda: GetKeysIqProtocolEntity([jid, "1" + jid], reason=r.choice([None, "identity"]))),
     ]
+    # the ciphertext elements the send layer builds: for the chat itself, and addressed to one member of a group (wrapped in <to jid=…>) —
+    # with and without a media type, every envelope type
+    from yowsup.layers.axolotl.protocolentities.enc import EncProtocolEntity
+
+    def enc_case(to_member, media):
+        typ = r.choice(["pkmsg", "msg", "skmsg"])
+        mt = r.choice(["image", "video", "audio", "document", "ptt", "sticker", "url", "location", "contact", "gif"]) if media else None
+        data = bytes(r.randrange(256) for _ in range(r.choice([1, 30, 200])))
+        member = jid if to_member else None
+
+        def verify(s2):
+            enc = s2
+            if to_member:
+                if s2.tag != "to" or s2["jid"] != member:
+                    return ("jid", member, "<%s jid=%r>" % (s2.tag, s2["jid"]))
+                enc = s2.getChild("enc")
+                if enc is None:
+                    return ("enc", "an <enc> element", None)
+            for k, v in (("type", typ), ("v", "2"), ("mediatype", mt)):
+                if enc[k] != v:
+                    return (k, v, enc[k])
+            if enc.getData() != data:
+                return ("data", data.hex()[:40], (enc.getData() or b"").hex()[:40])
+            return None
+        return (lambda: EncProtocolEntity(typ, 2, data, mt, jid=member)), verify
+    for to_member in (0, 1):
+        for media in (0, 1):
+            mk, verify = enc_case(to_member, media)
+            out.append(("enc%s%s" % ("-to-member" if to_member else "", "-media" if media else ""), mk, verify))
     return out
 
 
@@ -375,6 +404,12 @@ def run_outgoing(chk, case):
         fails.append(oracle("C09:outgoing:%s:serialise-raises" % name, "%s: %s: %s" % (what, type(e).__name__, str(e)[:120])))
         return fails
     # the stanza carries what the entity was built with ...
+    if callable(expect):
+        bad = expect(s2)
+        if bad:
+            fails.append(oracle("C09:outgoing:%s:field-not-in-stanza:%s" % (name, bad[0]), "%s: built with %s=%r, the stanza has %s=%r" % (what, bad[0], bad[1], bad[0], bad[2])))
+            return fails
+        expect = {}
     for k, v in sorted(expect.items()):
         if s2[k] != v:
             fails.append(oracle("C09:outgoing:%s:field-not-in-stanza:%s" % (name.split(":")[0], k), "%s: built with %s=%r, the stanza has %s=%r" % (what, k, v, k, s2[k])))
